@@ -3,7 +3,7 @@
    returned value satisfies P. *)
 From ZV.Common Require Import Base.
 From ZV.C15 Require Import Model ProofsCore ProofsSeq ProofsLz ProofsPz ProofsHex ProofsIo ProofsAll.
-From ZV.C15 Require Import ModelBlob ModelCases ProofsBlob ModelIo2 ProofsIo2 ModelHuff ProofsHuff ModelEntropy ProofsEntropy ModelFiles ProofsFiles.
+From ZV.C15 Require Import ModelBlob ModelCases ProofsBlob ModelIo2 ProofsIo2 ModelHuff ProofsHuff ModelEntropy ProofsEntropy ModelFiles ProofsFiles ModelB64 ProofsB64.
 Open Scope N_scope.
 
 (* every modelled parser (39 entry points), every argument, every byte string shorter than 2^60:
@@ -477,3 +477,18 @@ Check hex_decode_str_total :
 Print Assumptions hex_decode_str_total.
 Example hex_decode_str_nontrivial : hex_dec [52; 195; 169; 53] = Err 2.
 Proof. vm_compute. reflexivity. Qed.
+
+(* AdaptiveBase64::decode, all four configurations (standard / url-safe alphabet, padding required and
+   canonical / refused): no panic, 3 bytes reserved per 4 input bytes, output no longer than the input *)
+Theorem base64_decode_total :
+  forall cfg data, nlen data < 2 ^ 60 ->
+    good (fun out => nlen out <= nlen data) ((nlen data + 3) / 4 * 3) (b64_dec cfg data).
+Proof. exact b64_dec_good. Qed.
+Check base64_decode_total :
+  forall cfg data, nlen data < 2 ^ 60 ->
+    good (fun out => nlen out <= nlen data) ((nlen data + 3) / 4 * 3) (b64_dec cfg data).
+Print Assumptions base64_decode_total.
+Example base64_decode_nontrivial :
+  b64_dec 0 [90; 109; 57; 118; 89; 103; 61; 61] = Ok [102; 111; 111; 98] 6 /\
+  b64_dec 2 [90; 109; 57; 118; 89; 103; 61; 61] = Err 6 /\ b64_dec 0 [90; 109; 57; 118; 89; 104; 61; 61] = Err 6.
+Proof. vm_compute. repeat split. Qed.
